@@ -3,6 +3,7 @@ EXTENDS Feed, TLC
 CONSTANTS Lens, Stops
 Actions ==
   {[op |-> "NewSrc", n |-> n] : n \in Lens}
+  \cup {[op |-> "Refill", n |-> n] : n \in Lens \ {0}}
   \cup {[op |-> "NewSink", kind |-> "closure", stop |-> s] : s \in Stops}
   \cup {[op |-> "NewSink", kind |-> k, stop |-> 0] : k \in {"vec", "extend"}}
   \cup {[op |-> "Feed", via |-> v] : v \in {"feed_into", "feed_into_mut", "extend"}}
